@@ -119,7 +119,8 @@ func eval(fm *Frame, opts evalOpts, code string) error {
 	// The stacktrace already contains the line that calls "eval", so we pass
 	// nil as the second argument.
 	newNs, exc := fm.Eval(src, nil, ns)
-	if opts.OnEnd != nil {
+	// If the code failed to parse or compile, there is no new namespace.
+	if opts.OnEnd != nil && newNs != nil {
 		newFm := fm.Fork()
 		errCb := opts.OnEnd.Call(newFm, []any{newNs}, NoOpts)
 		if exc == nil {
